@@ -17,5 +17,6 @@ done
 GOCOVERDIR=$out/cov VERIF_OUT=$out $out/bin/verif C10 $tier > $out/log.txt 2>&1; head -1 $out/log.txt | cut -c1-120
 go tool covdata textfmt -i=$out/cov -o $out/cover.txt
 grep -E "^mode|peterstace/simplefeatures/(geom|rtree|carto)/" $out/cover.txt > $out/lib.txt; go tool cover -func=$out/lib.txt > /verif/.work/coverage_func.txt
+cp $out/lib.txt /verif/.work/coverage_profile.txt
 grep -v "100.0%" /verif/.work/coverage_func.txt | awk '$NF=="0.0%"' | grep -v "_test.go" > /verif/.work/coverage_zero.txt
 echo "functions never executed: $(wc -l < /verif/.work/coverage_zero.txt) (list in .work/coverage_zero.txt); total: $(tail -1 /verif/.work/coverage_func.txt)"
